@@ -2,6 +2,7 @@ import PfModel.DriverVal
 import PfModel.Model.Validate
 import PfModel.Model.ValidateEdit
 import PfModel.Model.ValidateNarrow
+import PfModel.Model.ValidateCall
 import PfModel.Generated.C12Facts
 import PfModel.DriverC12Ctor
 /-! Driver for C12 (`validate`): construction and the start of `map` on a possibly ill-formed request.
@@ -111,8 +112,39 @@ def putMFuncBrief (f : MFunc) : Json :=
   jObj [("name", jStr f.name), ("params", jList (fun p => jStr p.1) f.params), ("outputs", jList jStr f.outputs),
         ("defaults", jList jStr (akeys f.defaults)), ("bound", jList jStr (akeys f.bound))]
 
+/-- the call path has one more class: `RuntimeError` is `Exc.other` in `callChecks` -/
+def putCallRes : V Unit → Json
+  | .ok _ => jObj [("ok", jBool true)]
+  | .error e => jObj [("err", if e.check == "mapspec-in-dependencies" then jStr "RuntimeError" else putExc e.exc), ("check", jStr e.check)]
+
 def handle (m : String) (a : Json) : R Json := do
   match m with
+  | "callpath" =>
+    -- round 9: build, (optionally) edit in place, then `run` / `__call__` / `func(out)(**kw)` for one output and keyword set
+    let base ← listF getMFunc a "funcs"
+    let edits := (← optF (asList getEdit) a "edits").getD []
+    let q : CallReq := { output := ← strF a "output", kwargs := ← listF asStr a "kwargs" }
+    let viaFunc := (← strF a "via") == "func"
+    let c := construct base
+    match c with
+    | .error _ => return jObj [("construct", putRes c), ("edit", Json.null), ("start", Json.null), ("effects", jArr [])]
+    | .ok _ =>
+      let edited := applyEdits (base.map EFunc.ofMFunc) edits
+      let editRes : Json := match edited with
+        | .ok _ => jObj [("ok", jBool true)]
+        | .error e => jObj [("err", putExc e.exc), ("check", jStr e.check),
+                            ("index", match firstRefused (base.map EFunc.ofMFunc) edits with | some k => jNat k | none => Json.null)]
+      let fsAfter := match edited with | .ok es => funcsOf es | .error _ => []
+      -- the calls of the evaluation when exactly root arguments are passed: the producer and everything upstream of it
+      let needed := match producer fsAfter q.output with
+        | some f => f.name :: (funcDeps fsAfter q.output).filter (· != f.name)
+        | none => []
+      let (effs, res) := sessionCall base edits q needed viaFunc
+      return jObj [("construct", putRes c), ("edit", editRes), ("start", match edited with | .ok _ => putCallRes res | .error _ => Json.null),
+                   ("effects", jList putEffect effs), ("needed", jList jStr needed),
+                   ("mapped_needed", jBool (fsAfter.any fun f => needed.contains f.name && f.mapspec.isSome)),
+                   ("kwargs_are_roots", jBool (q.kwargs.all (rootArgs fsAfter).contains)),
+                   ("funcs_after", jList putMFuncBrief fsAfter)]
   | "session" =>
     -- build (must be valid), edit in place, then start `map` (with the executor form) or `run`
     let base ← listF getMFunc a "funcs"
@@ -207,6 +239,18 @@ def handle (m : String) (a : Json) : R Json := do
                  ("round4", jObj [
                    ("prepare_run:unconditional-validations", jBool (alwaysValidated Generated.prepareRunUnconditional &&
                       isSubseq Generated.prepareRunUnconditional Generated.prepareRunCalls))]),
+                 ("round9", jObj [
+                   ("Pipeline.run:gate", jBool (runGateOK Generated.callRunCalls Generated.callRunUncond)),
+                   ("run->mapspec_names->mapspecs()->sorted_functions->topological_generations->graph", jBool (
+                      cycleChainOK Generated.callMapspecNamesCalls Generated.callMapspecsOrderedDefault Generated.callMapspecsCalls
+                        Generated.callSortedFunctionsUncond Generated.callTopoUncond Generated.pipelineTopoCalls Generated.callGraphUncond)),
+                   ("__call__/func/_PipelineAsFunc", jBool (
+                      callEntriesOK Generated.callDunderCalls Generated.callAsFuncCalls Generated.callFuncCalls Generated.callRootArgsCalls
+                        Generated.callArgCombinationsCalls Generated.callNodeMappingCalls Generated.callFuncDependenciesCalls)),
+                   ("Pipeline._run", jBool (innerRunOK Generated.callInnerRunCalls)),
+                   ("add->_validate->_validate_mapspec->_autogen_mapspec_axes->topological_generations (every path)", jBool (
+                      ctorCycleUncondOK Generated.ctorAddUncond Generated.ctorValidateUncond Generated.ctorValidateMapspecUncond
+                        Generated.ctorAutogenUncond))]),
                  ("unknown_calls", jList jStr
                    ((Generated.runMapCalls ++ Generated.runMapAsyncCalls).filter (fun c => classifyRun c == .unknown) ++
                     (Generated.pipelineInitCalls ++ Generated.pipelineAddCalls ++ Generated.pipelineValidateCalls ++
